@@ -1,0 +1,27 @@
+//go:build verif
+// +build verif
+
+// Verification hook H3b (add-only, compiled only with -tags verif): exports the share collector
+// that round1 uses for the block signature and the random beacon (groupSignGenerator in
+// round_sign_piece.go). No behaviour of existing code paths changes.
+package logical
+
+import "com.tuntun.rangers/node/src/consensus/groupsig"
+
+// VerifRoundSignGenerator wraps round1's groupSignGenerator.
+type VerifRoundSignGenerator struct {
+	g *groupSignGenerator
+}
+
+// VerifNewRoundSignGenerator is newGroupSignGenerator(threshold) as called by round1.Start.
+func VerifNewRoundSignGenerator(threshold int) *VerifRoundSignGenerator {
+	return &VerifRoundSignGenerator{g: newGroupSignGenerator(threshold)}
+}
+
+func (v *VerifRoundSignGenerator) AddWitnessSign(id groupsig.ID, sig groupsig.Signature) (bool, bool) {
+	return v.g.AddWitnessSign(id, sig)
+}
+
+func (v *VerifRoundSignGenerator) GetGroupSign() groupsig.Signature { return v.g.GetGroupSign() }
+
+func (v *VerifRoundSignGenerator) SignRecovered() bool { return v.g.SignRecovered() }
